@@ -273,6 +273,115 @@ func (s *Sim) opMisuse(op *Op) {
 				s.expectPanic("Unsafe.Remove", "missing_remove", func() { s.W.Unsafe().Remove(e.H, ids...) })
 			}
 		}
+	case "batch":
+		// the batch forms of dup_add / missing_remove / missing_target / a relation component the
+		// entities lack: the batch covers all entities, one of them violates the precondition
+		e := s.M.PickLive(op.E)
+		if e == nil || s.locked() {
+			s.skip(op)
+			return
+		}
+		all := func() ecs.Batch { return ecs.NewFilter0(s.W).Batch() }
+		switch abs(int(op.X)) % 5 {
+		case 0:
+			if len(e.Comps) == 0 {
+				s.skip(op)
+				return
+			}
+			idx := s.findTuple(MapTuples, e, true, abs(op.Ad))
+			if idx < 0 {
+				s.skip(op)
+				return
+			}
+			tuple := MapTuples[idx]
+			if op.N%2 == 0 {
+				s.expectPanic(mapperName(tuple, idx)+".AddBatch", "batch_dup_add", func() {
+					s.mapper(idx).AddBatch(all(), make([]uint64, len(tuple)), zeroRels(s, tuple))
+				})
+			} else {
+				s.expectPanic(mapperName(tuple, idx)+".AddBatchFn", "batch_dup_add", func() {
+					s.mapper(idx).AddBatchFn(all(), func(_ ecs.Entity, _ []unsafe.Pointer) {}, zeroRels(s, tuple))
+				})
+			}
+		case 1:
+			idx := s.findTuple(MapTuples, e, false, abs(op.Ad))
+			if idx < 0 {
+				s.skip(op)
+				return
+			}
+			s.expectPanic(mapperName(MapTuples[idx], idx)+".RemoveBatch", "batch_missing_remove", func() { s.mapper(idx).RemoveBatch(all(), nil) })
+		case 2:
+			// a relation component without its target
+			r := RelTypes[abs(op.N)%len(RelTypes)]
+			idx := -1
+			for k := range MapTuples {
+				j := (k + abs(op.Ad)) % len(MapTuples)
+				if contains(MapTuples[j], r) {
+					idx = j
+					break
+				}
+			}
+			if idx < 0 {
+				s.skip(op)
+				return
+			}
+			tuple := MapTuples[idx]
+			s.expectPanic(mapperName(tuple, idx)+".AddBatch", "batch_missing_target", func() {
+				singleTargets = singleTargets[:0]
+				s.mapper(idx).AddBatch(all(), make([]uint64, len(tuple)), nil)
+			})
+		case 3:
+			// SetRelationsBatch over entities of which one lacks the relation component
+			r := -1
+			for k := range RelTypes {
+				t := RelTypes[(k+abs(op.N))%len(RelTypes)]
+				if !e.Has(t) {
+					r = t
+					break
+				}
+			}
+			if r < 0 {
+				s.skip(op)
+				return
+			}
+			idx := -1
+			for k := range MapTuples {
+				j := (k + abs(op.Ad)) % len(MapTuples)
+				if contains(MapTuples[j], r) {
+					idx = j
+					break
+				}
+			}
+			if idx < 0 {
+				s.skip(op)
+				return
+			}
+			tuple := MapTuples[idx]
+			s.expectPanic(mapperName(tuple, idx)+".SetRelationsBatch", "batch_not_relation", func() {
+				s.mapper(idx).SetRelationsBatch(all(), nil, zeroRels(s, tuple))
+			})
+		default:
+			c := -1
+			for k := 0; k < NumTypes; k++ {
+				t := (abs(op.N) + k) % NumTypes
+				if !e.Has(t) {
+					c = t
+					break
+				}
+			}
+			if c < 0 {
+				s.skip(op)
+				return
+			}
+			idx := abs(op.Ad) % len(ExTuples)
+			if contains(ExTuples[idx], c) {
+				s.skip(op)
+				return
+			}
+			s.expectPanic(fmt.Sprintf("Exchange%d.RemoveBatch", len(ExTuples[idx])), "batch_missing_remove", func() {
+				s.exchanger(idx, []int{c}).RemoveBatch(all(), nil)
+			})
+		}
 	case "empty_list":
 		e := s.M.PickLive(op.E)
 		if e == nil || s.locked() {
